@@ -143,6 +143,29 @@ def counts_spec(hs):
   return Spec(C + ':_MetricCache.counts', apply)
 
 
+def u_counts(ctx, index):
+  """the property _MetricCache.counts against the contract its callers assume (counts_spec): one
+  (metric, number of datapoints) pair per cached metric, no metric twice."""
+  from .cache_model import Harness
+  hs = Harness(ctx, index)
+  d = hs.data
+  r = hs.ip.getattr(hs.cache, 'counts')
+  index.mark_used(index.func(C + ':_MetricCache.counts'))
+  ctx.cover('counts/returns')
+  ok = isinstance(r, SymSeq)
+  ctx.check('C17/counts/returns_list', z3.BoolVal(ok))
+  if not ok:
+    return
+  i, j = z3.Int('i?'), z3.Int('j?')
+  n = r.length()
+  m0, c0 = TCount.acc
+  t = r.term
+  ctx.check('C17/counts/one_pair_per_cached_metric', n == d.card)
+  ctx.check('C17/counts/pairs_are_metric_and_its_datapoint_count', z3.ForAll([i], z3.Implies(
+    z3.And(0 <= i, i < n), z3.And(z3.Select(d.keys, m0(t[i])), c0(t[i]) == IM.icard(z3.Select(d.inner, m0(t[i])))))))
+  ctx.check('C17/counts/no_metric_twice', z3.ForAll([i, j], z3.Implies(z3.And(0 <= i, i < j, j < n), m0(t[i]) != m0(t[j]))))
+
+
 OLDEST = z3.Function('oldest_timestamp_at_snapshot', Atom, z3.RealSort())
 
 
@@ -309,6 +332,7 @@ def build():
     Unit('cache.MaxStrategy.choose_item', u_max_choose, [C + ':MaxStrategy.choose_item'], expect_covers=['max/returns']),
     Unit('cache.RandomStrategy.choose_item', u_random_choose, [C + ':RandomStrategy.choose_item'], expect_covers=['random/returns']),
     u_generator('NaiveStrategy', 'naive'), u_generator('SortedStrategy', 'sorted'), u_generator('TimeSortedStrategy', 'timesorted'),
+    Unit('cache.counts', u_counts, [C + ':_MetricCache.counts'], expect_covers=['counts/returns']),
     Unit('cache.MetricCache', u_select_strategy, [C + ':MetricCache'], expect_covers=['select/returns']),
   ]
   from . import bucket_units as BU
@@ -330,7 +354,7 @@ def build():
     trusted_base=['A-ENGINE', 'A-SMT', 'A-GIL', 'A-THREADS', 'A-CLOCK', 'A-LIB(max/sorted/choice/dict models)'],
     assumptions=[
       "generators are verified as coroutines: at every yield the environment may pop the yielded metric (the consumer always does: drain_metric -> pop, proved in C02) and the storing thread may run (rely G_R*); the generator is resumed only when the cache is not empty (drain_metric's guard, stable under G_R*)",
-      "_MetricCache.counts / watermarks are used through assumed contracts (one entry per cached metric resp. per metric with datapoints; minimum timestamp)",
+      "_MetricCache.counts is used through its contract, verified by unit cache.counts; _MetricCache.watermarks through an assumed contract (one entry per metric with datapoints, minimum timestamp: min()/max() over a dict view inside a comprehension is not modelled)",
       "BucketMaxStrategy: exception-freedom of store / choose_item under I_bucket, 'returns a metric of maximal count', 'None only for an empty cache' and I_bucket at every lock release of drain_metric are discharged; that store / choose_item themselves preserve I_bucket is decided only by the bounded stand-in (solver timeouts), so choose_item's contract as used by drain_metric is partly assumed",
       "'with no new input repeated draining hands out everything': each drain removes the chosen metric entirely (C02 pop) and choose_item returns a cached metric while the cache is not empty (timesorted: while something is older than the lag), so size strictly decreases (meta-step over these contracts)",
     ])
